@@ -57,6 +57,16 @@ package core
 //@ func core.MetricRegistry.RegisterGauge params ID, supplier, tags
 //@   assigns nothing
 
+//@ func (*EmptyMetricRegistry).RegisterDistribution
+//@   refines[C20] core.MetricRegistry.RegisterDistribution
+//@   assigns nothing
+//@ func (*EmptyMetricRegistry).RegisterTiming
+//@   refines[C20] core.MetricRegistry.RegisterTiming
+//@   assigns nothing
+//@ func (*EmptyMetricRegistry).RegisterCount
+//@   refines[C20] core.MetricRegistry.RegisterCount
+//@   assigns nothing
+
 //@ func NewCommonMetricSamplerOrNil
 //@   ensures[C20] nil_for_no_registry: (registry == nil || dyntype(registry, "*core.EmptyMetricRegistry")) ==> result == nil
 //@   ensures[C20] listeners: result != nil ==> result.RTTListener != nil && result.DropCounterListener != nil && result.InFlightListener != nil
